@@ -592,8 +592,9 @@ def implicit(m: Model, d: Data):
       outputs=[d.qLU],
     )
 
-    # 3. Compute RNE derivatives, scale by timestep, and subtract in-place from qLU
-    derivative.deriv_rne_vel(m, d, d.qLU, flg_subtract=True)
+    # 3. Compute RNE derivatives: deriv_rne_vel accumulates -dt * qDeriv_rne, i.e. the
+    #    Coriolis/centrifugal part of M - dt * qDeriv, so it is added to qLU
+    derivative.deriv_rne_vel(m, d, d.qLU)
 
     # 4. Factorize and solve: qacc = qLU \ Ma
     qacc = wp.empty((d.nworld, m.nv), dtype=float)
